@@ -2,7 +2,7 @@
    instance names the function to run. *)
 From Coq Require Import List ZArith.
 Import ListNotations.
-From V Require Import Valid.Run Model.RunC13 Model.Edits2 Model.IterHier Model.BytecodeRun Model.Serial Model.Render Model.RunSrc Model.PipeRun Model.SrcRun Model.BackRun.
+From V Require Import Valid.Run Model.RunC13 Model.Edits2 Model.IterHier Model.BytecodeRun Model.Serial Model.Render Model.RunSrc Model.PipeRun Model.SrcRun Model.BackRun Model.SrcERun.
 Local Open Scope Z_scope.
 
 Definition run_any (rows : list (list Z)) : list Z :=
@@ -18,6 +18,7 @@ Definition run_any (rows : list (list Z)) : list Z :=
   | [130] :: rest => run_pipe rest
   | [140] :: rest => run_src rest
   | [160] :: rest => run_back rest
+  | [170] :: rest => run_srce rest
   | [100] :: rest => run_instance rest
   | _ => run_instance rows
   end.
